@@ -1365,6 +1365,17 @@ def call(I, run, fn: Value, args: List[Value], kwargs: Dict[str, Value], node) -
                 and f"Lock.{mname}" not in cfg.stubs:
             # explicit acquire()/release() open and close the same critical section a `with` statement does
             if mname in ("acquire", "__enter__"):
+                if mname == "acquire":
+                    # acquire(blocking=False) / acquire(timeout=t) may come back WITHOUT the lock: both results are explored, and a caller
+                    # that does not look at the result goes on unprotected
+                    blocking = args[0] if args else kwargs.get("blocking", TRUE)
+                    tmo = args[1] if len(args) > 1 else kwargs.get("timeout", C(-1))
+                    tmo = I.resolve(run, tmo)
+                    blocking = I.resolve(run, blocking)
+                    bounded = not (isinstance(blocking, C) and blocking.v in (True, 1)) or not (isinstance(tmo, C) and tmo.v == -1)
+                    if bounded and run.choose(2, I.locof(node), "bounded Lock.acquire() gives up without the lock") == 1:
+                        run.effect("lock.acquire-failed", (recv,), node=node)
+                        return FALSE
                 I.enter_cm(run, recv, node)
                 return TRUE if mname == "acquire" else recv
             I.exit_cm(run, recv, node)
